@@ -343,8 +343,10 @@ class World:
         log = RecLogger(cfg)
 
         class Cap(logging.Handler):
+            # logging.getLogger("gunicorn.access") is one object for all Logger instances: the (single) active
+            # handler reports to the world that is serving right now
             def emit(self, rec):
-                world.lines.append(self.format(rec))
+                (CURRENT or world).lines.append(self.format(rec))
         h = Cap()
         h.setFormatter(logging.Formatter("%(message)s"))
         log.access_log.handlers = [h]
